@@ -64,7 +64,16 @@ LEVEL_NOTE = ("text.Marshal: coq/Text/TextRead.v models marshalStruct / marshalF
 TECHNIQUE = "Coq proof over an executable model + source-to-Coq translator for the arithmetic + differential run"
 DESIGN_REF = "DESIGN.md section 6, C01"
 
-classify = rc.classify
+def classify(run, case, impl, model):
+    if run == "pogsread":
+        def c(x):
+            f = x.split()
+            return f[1] if len(f) > 1 and f[0] == "hostile" else (f[0] if f else "<none>")
+        if impl == model:
+            return "same"
+        what = "class" if c(impl) != c(model) else "budget"
+        return "pogsread/%s impl=%s model=%s" % (what, c(impl), c(model))
+    return rc.classify(run, case, impl, model)
 
 
 def impl_violation(run, case, impl):
@@ -72,6 +81,33 @@ def impl_violation(run, case, impl):
 
 
 def violates(run, case, impl, model):
+    if run == "pogsread":
+        return "PANIC" in impl or "HANG" in impl
     if run == l0_common.RUN_NAME:
         return l0_common.violates(run, case, impl, model)
     return rc.has_panic(impl)
+
+
+# ---- run "pogsread": msg.Root() + pogs.Extract on hostile bytes vs coq/Pogs/PogsRead.v (extract_msg)
+RUNS = RUNS + [dict(name="pogsread", harness="c01pogs", driver="pogsread", model_ml="pogsread_model")]
+COQ_TARGETS = COQ_TARGETS + ["Extract/ExtractPogsRead.vo"]
+
+# ---- consumer pogs.Extract composed with the reader model (coq/Pogs/PogsRead.v, PogsReadProofs.v); appended, supersedes
+# ---- the words "pogs.Extract" in the NOT-proved sentences above (text.Marshal is handled in its own appended block)
+COQ_TARGETS = COQ_TARGETS + ["Props/Properties_C01_pogs.vo"]
+PROPS_FILES = PROPS_FILES + ["Props/Properties_C01_pogs.v"]
+LEVEL_TEXT = LEVEL_TEXT + (
+    " UPDATE pogs.Extract: now proved (C01_pogs_extract_never_panics, C01_pogs_extract_msg_never_panics, "
+    "C01_pogs_extract_receivers_wf) for the Go-faithful model extract_r of pogs/extract.go reading through the Core reader "
+    "model: for ALL segment bytes (msg_ok), all limits, all fuel and every mapped schema accepted by the decidable predicate "
+    "rschema_ok (slot offsets in the accessors' documented domain, no non-null struct / list / AnyPointer schema default, finite "
+    "by-value nesting) msg.Root() + pogs.Extract never panics and every struct / list it reads is a well-formed pointer of the "
+    "message (so C01_accessor_safe applies to every read). Tied to the code by the run 'pogsread' (outcome class and remaining "
+    "traversal budget of pogs.Extract vs extract_msg on hostile / cyclic / mutated messages).")
+LEVEL_NOTE = LEVEL_NOTE + (
+    " UPDATE pogs.Extract - what is still NOT proved: (1) schemas with a non-null struct / list / AnyPointer default: the model "
+    "stops with the outcome XDefault where extraction would continue inside the schema message (trusted bytes; C19 theorems over "
+    "abstract contents cover that part, the two are not composed); (2) extract_r is not related by a theorem to PogsM.extract_struct "
+    "on the decoded struct contents; (3) Interface.Client() (capability table lookup) is abstracted to the interface pointer; "
+    "mapStruct (reflect) is represented by its result, the field map, as in C19; (4) 'never yields data from outside the segments' "
+    "is the wf-receiver invariant + C01_accessor_safe, not a separate statement about the produced Go value.")
